@@ -43,6 +43,8 @@ def impl_rev(b, off, mx):
     def f():
         r = CU.decode_varint_in_reverse(bytearray(b), off, mx)
         if isinstance(r, InvalidVarIntError):
+            # before fix 1c3b10a the exception object was RETURNED; the model now says `err parseError` there,
+            # so a regression to the old behaviour shows up as a disagreement
             return "ok errobj"
         return f"ok {r[0]} {r[1]}"
     return guarded(f)
